@@ -6,28 +6,47 @@ namespace BiotiteModel.C06
 
 /-! ## lines -/
 
-theorem splitLines_line (l rest : Str) (h : '\n' ∉ l) :
+theorem splitLines_cons_nobreak (c : Char) (cs : Str) (h : isBreak c = false) :
+    splitLines (c :: cs) = (match splitLines cs with
+      | [] => [[c]]
+      | l :: ls => (c :: l) :: ls) := by
+  have hr : c ≠ '\r' := by intro e; subst e; simp [isBreak] at h
+  conv => lhs; unfold splitLines
+  split
+  · rename_i heq; cases heq
+  · rename_i heq
+    simp only [List.cons.injEq] at heq
+    exact absurd heq.1 hr
+  · rename_i c' cs' _ heq
+    simp only [List.cons.injEq] at heq
+    obtain ⟨rfl, rfl⟩ := heq
+    simp only [h, Bool.false_eq_true, if_false]
+    rfl
+
+theorem splitLines_nl (rest : Str) : splitLines ('\n' :: rest) = [] :: splitLines rest := by
+  conv => lhs; unfold splitLines
+  simp [isBreak]
+
+theorem splitLines_line (l rest : Str) (h : NoBreak l) :
     splitLines (l ++ '\n' :: rest) = l :: splitLines rest := by
   induction l with
-  | nil => simp [splitLines]
+  | nil => simpa using splitLines_nl rest
   | cons c l ih =>
-    have hc : (c == '\n') = false := by
-      simp only [List.mem_cons, not_or] at h
-      simpa using fun e => h.1 e.symm
-    have := ih (fun hm => h (List.mem_cons_of_mem _ hm))
-    simp only [List.cons_append, splitLines, hc, Bool.false_eq_true, if_false, this]
+    have hc := h c (by simp)
+    have := ih (fun x hx => h x (by simp [hx]))
+    rw [List.cons_append, splitLines_cons_nobreak c _ hc, this]
 
 theorem unlines_cons (l : Str) (ls : List Str) : unlines (l :: ls) = l ++ '\n' :: unlines ls := by
   simp [unlines]
 
-theorem splitLines_unlines (ls : List Str) (h : ∀ l ∈ ls, '\n' ∉ l) : splitLines (unlines ls) = ls := by
+theorem splitLines_unlines (ls : List Str) (h : ∀ l ∈ ls, NoBreak l) : splitLines (unlines ls) = ls := by
   induction ls with
   | nil => rfl
   | cons l ls ih =>
     rw [unlines_cons, splitLines_line l _ (h l (by simp)), ih (fun x hx => h x (by simp [hx]))]
 
 /-- The first three steps of `CIFCategory.deserialize` on lines the writer produced. -/
-theorem read_lines (W : List Str) (h1 : ∀ w ∈ W, '\n' ∉ w) (h2 : ∀ w ∈ W, isEmptyLine w = false) :
+theorem read_lines (W : List Str) (h1 : ∀ w ∈ W, NoBreak w) (h2 : ∀ w ∈ W, isEmptyLine w = false) :
     ((splitLines (unlines W)).filter (fun l => !isEmptyLine l)).map strip = W.map strip := by
   rw [splitLines_unlines W h1]
   congr 1
@@ -62,6 +81,25 @@ theorem strip_edges_spaces (t : Str) (h : Edges t) (k : Nat) : strip (t ++ List.
 
 /-- Block/category/column names: no whitespace, no `.`, no quote characters. -/
 def NameOk (n : Str) : Prop := ∀ c ∈ n, isWs c = false ∧ c ≠ '.' ∧ c ≠ q1 ∧ c ≠ q2
+
+theorem nameOk_label (n : Str) (h : NameOk n) : (has '.' n || n.any isWs) = false := by
+  apply Bool.eq_false_iff.mpr
+  intro hh
+  simp only [Bool.or_eq_true, has_iff, List.any_eq_true] at hh
+  rcases hh with hd | ⟨c, hc, hw⟩
+  · exact (h _ hd).2.1 rfl
+  · rw [(h c hc).1] at hw; exact absurd hw (by simp)
+
+/-- the writer accepts the names of a category whose names are all `NameOk` -/
+theorem labels_ok (name : Str) (keys : List Str) (hn : NameOk name) (hk : ∀ k ∈ keys, NameOk k) :
+    (name :: keys).any (fun l => has '.' l || l.any isWs) = false := by
+  apply Bool.eq_false_iff.mpr
+  intro hh
+  simp only [List.any_eq_true] at hh
+  obtain ⟨l, hl, hb⟩ := hh
+  rcases List.mem_cons.mp hl with rfl | hl
+  · rw [nameOk_label _ hn] at hb; exact absurd hb (by simp)
+  · rw [nameOk_label _ (hk l hl)] at hb; exact absurd hb (by simp)
 
 /-- `_name.key` -/
 def keyTok (name key : Str) : Str := '_' :: name ++ '.' :: key
@@ -135,7 +173,7 @@ theorem parseCategoryName_keyTok_app (name key rest : Str) (hn : NameOk name) :
 
 /-- What the block and file scanners need to know about the written lines of one category. -/
 structure CatLines (name : Str) (W : List Str) : Prop where
-  nonl : ∀ w ∈ W, '\n' ∉ w
+  nonl : ∀ w ∈ W, NoBreak w
   nonempty : ∀ w ∈ W, isEmptyLine w = false
   nodata : ∀ w ∈ W, parseDataBlockName w = none
   start : ∃ l0 rest, W = l0 :: rest ∧
